@@ -53,10 +53,37 @@ static int small_objects() {
     for (auto& a : live) scalable_free(a.first);
     return 1;
 }
+#include <thread>
+// an over-aligned block of a fitting bin (interior user pointer) is freed by a thread that does not own the slab: what lands on the public free list must be the object's start
+static int foreign_free() {
+    for (size_t al : {128u, 256u, 512u, 1024u, 2048u}) for (size_t s : {1100u, 1500u, 2000u, 3000u, 5000u}) {
+        if (s + al > 8128) continue;
+        std::vector<char*> mine; char* p = nullptr; Block* blk = nullptr;
+        for (int i = 0; i < 12 && !p; ++i) {
+            char* q = (char*)scalable_aligned_malloc(s, al); if (!q) break;
+            Block* b = (Block*)alignDown(q, slabSize);
+            if (((uintptr_t)b + slabSize - (uintptr_t)q) % b->objectSize) { p = q; blk = b; } else mine.push_back(q);
+        }
+        if (p) {
+            mine.push_back((char*)scalable_aligned_malloc(s, al));   // keeps the slab non-empty
+            std::thread([&] { scalable_aligned_free(p); }).join();
+            for (FreeObject* f = blk->publicFreeList.load(); isSolidPtr(f); f = f->next)
+                if (((uintptr_t)blk + slabSize - (uintptr_t)f) % blk->objectSize) {
+                    std::printf("REPRODUCED class=free-list-interior-pointer p=scalable_aligned_malloc(%zu,%zu) lies %zu bytes inside its %u-byte slab object; after scalable_aligned_free(p) on another thread the slab's public free list holds p itself, not the object's start: the owner will hand out a block that overlaps the next object\n",
+                                s, al, (size_t)(blk->objectSize - ((uintptr_t)blk + slabSize - (uintptr_t)f) % blk->objectSize), (unsigned)blk->objectSize);
+                    return 0;
+                }
+        }
+        for (char* q : mine) if (q) scalable_aligned_free(q);
+    }
+    return 1;
+}
 int main(int argc, char** argv) {
     std::string job = argc > 1 ? argv[1] : "";
     if (job.rfind("realloc.large", 0) == 0 && realloc_large() == 0) return 0;
+    if (job.rfind("free.", 0) == 0 && foreign_free() == 0) return 0;
     if (small_objects() == 0) return 0;
+    if (foreign_free() == 0) return 0;
     if (realloc_large() == 0) return 0;
     std::printf("NOT-REPRODUCED\n"); return 0;
 }
